@@ -52,8 +52,11 @@ PROPS["C05"] = {
 
 PROPS["C01"] = {
     "title": "Optimisation never changes a verdict",
-    "models": lambda tier: [],
-    "gens": lambda tier: [{"topic": "opt", "n": q(tier, 600, 12000)}],
+    "models": lambda tier: [
+        {"module": "MC_Opt", "constants": {"Small": q(tier, "TRUE", "FALSE")},
+         "invariants": ["NoPanic", "DenStable", "EngInLang", "Emit"], "forms": ["mc_opt"], "workers": 12},
+    ],
+    "gens": lambda tier: [{"topic": "opt", "n": q(tier, 400, 12000)}],
     "rules": ["den", "opt_panic", "match_panic"],
     "chunk": 300,
 }
